@@ -369,10 +369,13 @@ func (s *socket) MaybeUpgrade(transport transports.Transport) {
 			s.setTransport(transport)
 			s.Emit("upgrade", transport)
 			s.flush()
-			if s.ReadyState() == "closing" {
+			if state := s.ReadyState(); state == "closing" {
 				transport.Close(func() {
 					s.OnClose("forced close")
 				})
+			} else if state == "closed" {
+				// closed while the transports were being switched: the new one must not stay behind
+				transport.Close()
 			}
 		} else {
 			cleanup()
@@ -659,9 +662,11 @@ func (s *socket) Close(discard bool) {
 // Closes the underlying transport.
 func (s *socket) closeTransport(discard bool) {
 	socket_log.Debug("closing the transport (discard? %t)", discard)
+	// one look at the transport: an upgrade may be switching transports at this very moment
+	transport := s.Transport()
 	if discard {
-		s.Transport().Discard()
-		if s.Transport().ReadyState() == "closing" {
+		transport.Discard()
+		if transport.ReadyState() == "closing" {
 			// an orderly close is already under way and waits for the client (a polling
 			// transport holds the close packet for the next poll): Transport.Close does
 			// nothing in that state, so a forced close has to end the session itself
@@ -669,5 +674,11 @@ func (s *socket) closeTransport(discard bool) {
 			return
 		}
 	}
-	s.Transport().Close(func() { s.OnClose("forced close") })
+	transport.Close(func() { s.OnClose("forced close") })
+	// Transport.Close does nothing for a transport that is closed already - the peer, or an upgrade
+	// that is switching transports at this very moment, can get there first - and then nobody
+	// would end the session: a server shutdown would leave it behind
+	if transport.ReadyState() == "closed" {
+		s.OnClose("forced close")
+	}
 }
